@@ -82,6 +82,18 @@ class RecordClass:
         self.defaults = defaults or {}
 
 
+class StaticRecClass:
+    """A NamedTuple class whose fields hold heap objects: instances are kept as Python dictionaries field -> value."""
+
+    def __init__(self, name, fields):
+        self.name = name
+        self.fields = tuple(fields)
+
+
+class StaticRec(dict):
+    """instance of a StaticRecClass (attribute access = field lookup)"""
+
+
 class ObjClass:
     def __init__(self, name):
         self.name = name
